@@ -168,6 +168,11 @@ func checkSteps(got pipeline.Steps, entries []any, depth int, oc *outcome) error
 			if wantKind != "" && gotKind != wantKind {
 				return fmt.Errorf("step %d came out as %s, the rule table says %s", i, gotKind, wantKind)
 			}
+			// a step accepted as a known kind is complete: every key of the entry that the kind
+			// does not model is held verbatim (a partially decoded step would have lost them)
+			if err := unknownKeysKept(s, e); err != nil {
+				return fmt.Errorf("step %d (%s): %w", i, gotKind, err)
+			}
 			if g, ok := s.(*pipeline.GroupStep); ok {
 				var sub []any
 				if sv, has := e.Get("steps"); has && sv != nil {
@@ -186,6 +191,67 @@ func checkSteps(got pipeline.Steps, entries []any, depth int, oc *outcome) error
 		}
 	}
 	return nil
+}
+
+// consumed returns the keys of entry e that a step of this kind consumes into typed fields
+// (primary keys, or the first present alias when the primary is absent - the C16 rule).
+func consumed(e *ordered.MapSA, fixed []string, aliasGroups [][]string) map[string]bool {
+	out := map[string]bool{}
+	for _, k := range fixed {
+		out[k] = true
+	}
+	for _, g := range aliasGroups {
+		for _, k := range g {
+			if e.Contains(k) {
+				out[k] = true
+				break
+			}
+		}
+	}
+	return out
+}
+
+func unknownKeysKept(s pipeline.Step, e *ordered.MapSA) error {
+	var held map[string]any
+	var modelled map[string]bool
+	switch t := s.(type) {
+	case *pipeline.CommandStep:
+		held = t.RemainingFields
+		modelled = consumed(e, []string{"command", "commands", "plugins", "env", "signature", "matrix", "cache"}, [][]string{{"key", "id", "identifier"}, {"label", "name"}})
+	case *pipeline.GroupStep:
+		held = t.RemainingFields
+		modelled = consumed(e, []string{"steps"}, [][]string{{"key", "id", "identifier"}, {"group", "label", "name"}})
+	case *pipeline.WaitStep:
+		held = t.Contents
+	case *pipeline.InputStep:
+		held = t.Contents
+	case *pipeline.TriggerStep:
+		held = t.Contents
+	default:
+		return nil
+	}
+	var err error
+	n := 0
+	e.Range(func(k string, v any) error {
+		if modelled[k] {
+			return nil
+		}
+		n++
+		got, ok := held[k]
+		if !ok {
+			err = fmt.Errorf("input key %q is not held by the parsed step", k)
+			return err
+		}
+		if d := gt.Diff(canon.Value(v), canon.Value(got), gt.Opt{}); d != "" {
+			err = fmt.Errorf("input key %q changed: %s", k, d)
+			return err
+		}
+		return nil
+	})
+	if err == nil && len(held) != n {
+		err = fmt.Errorf("parsed step holds %d unknown keys, the input entry has %d", len(held), n)
+	}
+	return err
 }
 
 func kindOfScalar(s string) (string, bool) {
